@@ -30,9 +30,10 @@ const localPath = "example.com/local"
 const c08Shards = 4
 
 type c08Case struct {
-	Src string `json:"src"`
-	Dec string `json:"dec"` // goast-guess | goast-map | gotypes
-	Res string `json:"res"` // guess | simple | guess-map
+	Src  string `json:"src"`
+	Src2 string `json:"src2,omitempty"` // second file decorated with the same resolver instance
+	Dec  string `json:"dec"`            // goast-guess | goast-map | gotypes
+	Res  string `json:"res"`            // guess | simple | guess-map
 }
 
 var c08Decs = []string{"goast-guess", "goast-map", "gotypes"}
@@ -49,11 +50,35 @@ func init() {
 		Level: "model_checking",
 		Rule: "choice-tree exploration: every import-bearing template x <=k (quick 2, thorough 3 on small templates) insertions of {/*c*/, // c, newline, blank line, multi-line comment} into any gap (including both sides of the dot of qualified identifiers), gofmt-canonicalised and deduplicated, " +
 			"x decorator resolver {goast+guess, goast+map, gotypes over go/types Uses} x restorer resolver {guess, simple map, guess.WithMap} (only combinations that name every package correctly); " +
-			"oracle: bytes identical to the input whenever the plain (no import management) round trip of that input is, and re-decorating the output yields the same (name, path) sequence; " +
+			"plus every ordered pair of templates decorated by two decorators (own file sets) that share one goast resolver; oracle: bytes identical to the input whenever the plain (no import management) round trip of that input is, and re-decorating the output yields the same (name, path) sequence; " +
 			"state = (canonical text, resolver pair); non-trivial = file in which at least one identifier carries a path",
 		Assumptions: []string{"dependency packages are the synthetic typed world (fmt, io, os, bytes, a.b/x, c.d/x, e.f/y-go)"},
-		Units:       func(tier string) []string { return gapUnits(importTemplates(), c08Shards) },
+		Units: func(tier string) []string {
+			u := gapUnits(importTemplates(), c08Shards)
+			for _, t := range importTemplates() {
+				u = append(u, "shared-resolver/"+t.Name)
+			}
+			return u
+		},
 		Run: func(ctx *core.Ctx, unit int) {
+			if n := len(importTemplates()) * c08Shards; unit >= n {
+				// one goast resolver instance decorating this file and then each other file, every file in
+				// its own FileSet; both must round-trip (a resolver may be shared between decorators)
+				a := importTemplates()[unit-n]
+				for _, b := range importTemplates() {
+					for _, dec := range []string{"goast-map", "goast-guess"} {
+						cs := c08Case{Src: a.Src, Src2: b.Src, Dec: dec, Res: "simple"}
+						o, applicable := c08Shared(cs)
+						if !applicable {
+							continue
+						}
+						ctx.State("shared|"+a.Name+"|"+b.Name+"|"+dec, true)
+						ctx.R.Transitions++
+						ctx.Eval(cs, o)
+					}
+				}
+				return
+			}
 			ti, shard := splitUnit(unit, c08Shards)
 			t := importTemplates()[ti]
 			k := 2
@@ -90,10 +115,59 @@ func init() {
 			if err := json.Unmarshal(c, &cs); err != nil {
 				panic(err)
 			}
+			if cs.Src2 != "" {
+				o, _ := c08Shared(cs)
+				return o
+			}
 			o, _ := c08Check(cs)
 			return o
 		},
 	})
+}
+
+// c08Shared decorates two files with one shared goast resolver (own FileSet and Decorator each) and
+// restores both.
+func c08Shared(cs c08Case) (core.Outcome, bool) {
+	fail := func(key, f string, a ...interface{}) (core.Outcome, bool) {
+		return core.Outcome{Key: key, Desc: fmt.Sprintf("one %s resolver shared by two decorators\n", cs.Dec) + fmt.Sprintf(f, a...) + "\nfirst file:\n" + cs.Src + "\nsecond file:\n" + cs.Src2}, true
+	}
+	var shared resolver.DecoratorResolver
+	if cs.Dec == "goast-guess" {
+		for _, src := range []string{cs.Src, cs.Src2} {
+			af, err := parser.ParseFile(token.NewFileSet(), "", src, parser.ImportsOnly)
+			if err != nil || !guessable(unaliasedImports(af)) {
+				return core.Outcome{OK: true}, false
+			}
+		}
+		shared = goast.New()
+	} else {
+		shared = goast.WithResolver(simple.New(stdNames))
+	}
+	for i, src := range []string{cs.Src, cs.Src2} {
+		if strings.Contains(src, "import \"C\"") {
+			continue
+		}
+		plain, err := roundTrip(src)
+		if err != nil || plain != src {
+			return core.Outcome{OK: true}, false
+		}
+		d := decorator.NewDecoratorWithImports(token.NewFileSet(), localPath, shared)
+		var df *dst.File
+		if p := guard(func() { df, err = d.Parse(src) }); p != "" {
+			return fail("shared-resolver-panic", "file %d: %s", i+1, p)
+		}
+		if err != nil {
+			return fail("shared-resolver-error", "file %d: %v", i+1, err)
+		}
+		var buf bytes.Buffer
+		if err := decorator.NewRestorerWithImports(localPath, simple.New(stdNames)).Fprint(&buf, df); err != nil {
+			return fail("shared-resolver-restore-error", "file %d: %v", i+1, err)
+		}
+		if buf.String() != src {
+			return fail("shared-resolver-bytes-differ", "file %d decorated with a resolver that another decorator used before does not round-trip\n%s", i+1, diffDesc(src, buf.String()))
+		}
+	}
+	return core.Outcome{OK: true}, true
 }
 
 // unaliasedImports returns the paths imported without a name.
